@@ -19,6 +19,7 @@ int exc_pending = 0;
 #endif
 #include "rt.h"
 #include "check.h"
+enum { RF_HASH = 0, RF_DEFAULT = 1, RF_E1 = 2, RF_E2 = 3, RF_E3 = 4, RF_CTXHASH = 5 };
 %(globals)s
 %(ref_c)s
 static void run_case(void) {
@@ -81,7 +82,6 @@ class Kernel:
         guards = [GUARD_CPP]
         for ret, fn, args in protos:
             an = ['a%d' % i for i in range(len(args))]
-            cxx = lambda t: t.replace('uint8_t*', 'std::uint8_t*').replace('uint32_t*', 'std::uint32_t*')
             guards.append('extern "C" %s %s(%s);' % (ret, fn, ', '.join(args)))
             body = 'try { %s%s(%s); } catch (...) { exc_pending = 1; %s }' % ('' if ret == 'void' else 'return ', fn, ', '.join(an), '' if ret == 'void' else 'return 0;')
             guards.append('extern "C" %s %s_guard(%s) { %s }' % (ret, fn, ', '.join('%s %s' % (t, a) for t, a in zip(args, an)), body))
